@@ -438,6 +438,43 @@ func ruleC18Err(r *Run) {
 					name = "dynamic call"
 				}
 				r.Check(rule, fmt.Sprintf("%s:error of %s#%d", FuncName(f), name, n), w.InstrPos(in), used, map[bool]string{true: "the error is returned, tested or passed on", false: "an error result is dropped"}[used])
+				// a failure is not turned into success: on every path where the error was found non-nil, the
+				// function returns an error that comes from it (or another error that is certainly non-nil)
+				res := f.Signature.Results()
+				if !used || ev == nil || res.Len() == 0 || !isErrorType(res.At(res.Len()-1).Type()) {
+					continue
+				}
+				fps, complete := exploreFrom(in, nil, 3000)
+				okProp := complete
+				for _, fp := range fps {
+					if fp.ret == nil {
+						continue
+					}
+					failed := false
+					for _, d := range fp.pc.decs {
+						if d.If == nil {
+							continue
+						}
+						if is, pol := nonNilTestP(d.Cond, ev, fp.pc); is && pol == d.Truth {
+							failed = true
+						}
+					}
+					if !failed {
+						continue
+					}
+					rv := resolvePhi(fp.ret.Results[len(fp.ret.Results)-1], fp.pc)
+					fromErr := flowsFromValue(rv, ev)
+					fresh := false
+					if cc, isCall := rv.(*ssa.Call); isCall {
+						if nm := calleeName(cc); nm == "errors.New" || nm == "fmt.Errorf" {
+							fresh = true
+						}
+					}
+					if !fromErr && !fresh {
+						okProp = false
+					}
+				}
+				r.Check(rule, fmt.Sprintf("%s:error of %s#%d propagates", FuncName(f), name, n), w.InstrPos(in), okProp, map[bool]string{true: "whenever this error is non-nil the function returns it (or an error built from it)", false: "a path on which this error is non-nil goes on and returns something else: a failed decode/parse is reported as success (the destination may be half-filled)"}[okProp])
 			}
 		})
 		// no panic outside Must*
@@ -1359,12 +1396,45 @@ func ruleC20Override(r *Run) {
 		}
 		walk(st.Val, false, 0)
 		okSrc = okSrc && seenLeaf["form:_method"] && seenLeaf["header:X-HTTP-Method-Override"]
+		// every alternative of the stored value is upper-cased, except where it is known to be empty
+		// (an empty value never passes the whitelist): the comparison is case-insensitive for both carriers
+		rawWhy := ""
+		phiLeavesA(st.Val, st, func(leaf ssa.Value, fact factOracle, aliases []ssa.Value) {
+			c, isCall := leaf.(*ssa.Call)
+			if isCall && calleeName(c) == "strings.ToUpper" {
+				return
+			}
+			if sv, isC := constString(leaf); isC && sv == "" {
+				return
+			}
+			isEmpty := func(cond ssa.Value, truth bool) bool {
+				b, ok := cond.(*ssa.BinOp)
+				if !ok || (b.Op != token.EQL && b.Op != token.NEQ) {
+					return false
+				}
+				sv, okc := constString(b.Y)
+				if !okc || sv != "" {
+					return false
+				}
+				subj := b.X == leaf
+				for _, al := range aliases {
+					if b.X == al {
+						subj = true
+					}
+				}
+				return subj && truth == (b.Op == token.EQL)
+			}
+			if !fact(isEmpty) {
+				okSrc = false
+				rawWhy = "; " + shortCanon(canon(leaf)) + " reaches the comparison without strings.ToUpper"
+			}
+		})
 		// upper-casing happens before the comparison: the compared value is (a phi of) ToUpper results / empty strings
 		upperOK := flowsFrom(st.Val, func(v ssa.Value) bool {
 			c, ok := v.(*ssa.Call)
 			return ok && calleeName(c) == "strings.ToUpper"
 		})
-		r.Check(rule, fmt.Sprintf("handlers.HTTPMethodOverrideHandler:store#%d source", i+1), w.InstrPos(st), okSrc && upperOK, "the new method is the upper-cased _method form value or, when that is empty, the X-HTTP-Method-Override header")
+		r.Check(rule, fmt.Sprintf("handlers.HTTPMethodOverrideHandler:store#%d source", i+1), w.InstrPos(st), okSrc && upperOK, "the new method is the upper-cased _method form value or, when that is empty, the upper-cased X-HTTP-Method-Override header"+rawWhy)
 		// the original method is recorded on the same path
 		rec := false
 		eachInstr(cl, func(in ssa.Instruction) {
